@@ -18,7 +18,7 @@ def gen_restore(r, tier):
     outcome x first PWM write outcome x control-mode support (the final full-speed write, if attempted, applies)"""
     ops = []
     ident = "0:0,80:80,255:255"
-    for kind in ("hwmon", "file"):
+    for kind in ("hwmon", "file", "cmd"):
         for hasmode in ((1, 0) if kind == "hwmon" else (0,)):
             for origmode in (-1, 0, 1, 2, 3, 5):
                 for mw in WRITES:
@@ -65,7 +65,7 @@ class C03(Prop):
     id = "C03"
     lean_modules = ["Fan2go.Props.C03"]
     fact_modules = ["Fan2go.Props.Facts"]
-    rule = ("restore: exhaustive {hwmon with/without pwm_enable, file} x original mode {-1,0,1,2,3,5} x mode write "
+    rule = ("restore: exhaustive {hwmon with/without pwm_enable, file, cmd (real scripts)} x original mode {-1,0,1,2,3,5} x mode write "
             "{applied,refused,ignored} x read-back {ok, unreadable(-1), garbage(0)} x original PWM {0,80,255}, plus random "
             "worlds with arbitrary write faults; failed-start: start-up error after the initialisation sequence; daemon: the "
             "real binary on a fake hwmon tree, SIGTERM/SIGINT once or in bursts at offsets spread over start-up, analysis, "
